@@ -74,12 +74,15 @@ def VTable.unlist (t : VTable) : Res VTable :=
 def subTable (t : Table) (ids : List Nat) : Val :=
   .dict (t.map fun c => (c.1, .list (pick c.2 ids)))
 
-/-- `d.groupby(*by, grp = 'grp')` (lines 998-1010) -/
+/-- `d.groupby(*by, grp = 'grp')` (lines 998-1010).  A `grp` that is one of the keys is rejected (`ValueError`, fix G1 of round h1: before
+it `rtn[grp] = [sub-tables]` REPLACED the key column of that name and `ungroup` returned the table without it).  A `grp` that is the
+name of another column is fine: that column lives inside the sub-tables. -/
 def Table.groupby (t : Table) (by_ : List String) (grp : String) : Res VTable :=
   if t.nrows = 0 then .ok t.toV else
   let by_ := if by_.isEmpty then t.cols else by_
   if by_.length = 0 then .error .value
   else if by_.length = t.cols.length then .error .value
+  else if by_.contains grp then .error .value
   else do
     let keys ← t.keysOf (by_.map .col)
     let gs := listbyG keys
